@@ -121,5 +121,12 @@ int main(int argc, char** argv)
         return withPriorCalls(genEncCase(p), p);
     };
     prop.run = runCase;
+    prop.normalize = [](EncCase& c) {
+        EncNormParams np;
+        np.allowEmptyBatch = true;
+        np.allowErrorFlag = true;
+        np.maxMaxB = 65535 + 24;  // C07's domain ends there
+        normalizeEncCase(c, np);
+    };
     return pbtMain(argc, argv, prop);
 }
